@@ -558,6 +558,10 @@ def check_dask(case, ctx: Ctx):
             out.append(s)
             acc += s
         sizes = [s for s in out if s > 0]
+    for pos in case.get("empty_chunks", []):
+        # zero-length chunks are legal dask chunks (they appear after filtering / slicing)
+        sizes.insert(pos % (len(sizes) + 1), 0)
+        ctx.label("empty_chunk")
     if case["d"] == 1:
         darr = da.from_array(arr, chunks=(tuple(sizes),))
         ref = ctx.call("h1(array, adaptive)", physt.h1, arr, "fixed_width", bin_width=w, adaptive=True)
@@ -603,7 +607,8 @@ def dask_cases(draw, tier="quick"):
     n = draw(st.integers(1, 30))
     return {"w": draw(st.sampled_from([0.5, 1.0, 0.25, 2.5, 0.1])), "xs": draw(st.lists(st.one_of(st.integers(-15, 15).map(float), st.floats(-15, 15, allow_nan=False)), min_size=n, max_size=n)),
             "chunks": draw(st.lists(st.integers(1, 10), min_size=1, max_size=6)), "d": draw(st.sampled_from([1, 1, 2, 2, 3])),
-            "form": draw(st.sampled_from(["dd", "h2", "columns", "split_columns"])), "method": draw(st.sampled_from([None, "thread"])),
+            "form": draw(st.sampled_from(["dd", "h2", "columns", "split_columns"])),
+            "empty_chunks": draw(st.one_of(st.just([]), st.just([]), st.lists(st.integers(0, 6), min_size=1, max_size=2))), "method": draw(st.sampled_from([None, "thread"])),
             "nan_at": draw(st.lists(st.integers(0, 40), max_size=3)), "nan_run": draw(st.one_of(st.none(), st.integers(0, 40)))}
 
 
